@@ -8,16 +8,21 @@ package task
 // package-level error values, initialised once by errors.New
 //@ nonnil ErrPreconditionFailed
 
-//@ ghost func onceKey(t *ast.Task) string
-//@ ghost func changedKey(t *ast.Task) string
+// keyFrom: which key function produced the result of GetHash (0 Empty, 1 Name, 2 Hash)
+//@ ghost var keyFrom int scratch
 
 // ---- C06: the run mode selects the deduplication key ------------------------------------------
 
 //@ func (*Executor).GetHash
-//@   pure
+//@   pure allocates
+//@   init keyFrom := 0 - 1
 //@   ensures (t.Run != "" ? t.Run : e.Taskfile.Run) == "always" ==> result.0 == "" && result.1 == nil            [C06]
-//@   ensures (t.Run != "" ? t.Run : e.Taskfile.Run) == "once" ==> result.0 == onceKey(t) && result.1 == nil       [C06]
-//@   ensures (t.Run != "" ? t.Run : e.Taskfile.Run) == "when_changed" ==> result.0 == changedKey(t)                [C06]
+//@   site hash.Name#1 ghost keyFrom := 1
+//@   site hash.Hash#1 ghost keyFrom := 2
+//@   site hash.Empty#1 ghost keyFrom := 0
+//@   ensures (t.Run != "" ? t.Run : e.Taskfile.Run) == "once" ==> keyFrom == 1                                     [C06]
+//@   ensures (t.Run != "" ? t.Run : e.Taskfile.Run) == "when_changed" ==> keyFrom == 2                             [C06]
+//@   ensures (t.Run != "" ? t.Run : e.Taskfile.Run) == "always" ==> keyFrom == 0                                   [C06]
 //@   ensures (t.Run != "" ? t.Run : e.Taskfile.Run) != "always" && (t.Run != "" ? t.Run : e.Taskfile.Run) != "once"
 //@           && (t.Run != "" ? t.Run : e.Taskfile.Run) != "when_changed" ==> result.1 != nil                        [C06]
 
@@ -33,6 +38,8 @@ package task
 // depCallOK(d): a RunTask call made for dependency entry d has returned nil in this invocation.
 // depClo(t,j): the closure handed to the errgroup for t.Deps[j].
 //@ ghost fact depCallOK(d *ast.Dep)
+// waitErr: what the errgroup reported (the first failure in time): runDeps must hand exactly that on
+//@ ghost var waitErr error scratch
 //@ ghost table depClo(t *ast.Task, j int) ref local
 
 //@ func (*Executor).runDeps$1
@@ -56,6 +63,9 @@ package task
 //@   site (*Group).Wait#1 ensures result == nil ==>
 //@        forall j {t.Deps[j]} :: 0 <= j && j < len(t.Deps) ==> returnedNil(depClo(t, j))                [C01]
 //@   ensures result == nil ==> forall j {t.Deps[j]} :: 0 <= j && j < len(t.Deps) ==> depCallOK(t.Deps[j])   [C01,C03]
+//@   init waitErr := nil
+//@   site (*Group).Wait#1 ghost waitErr := result
+//@   ensures result == waitErr                                                                         [C03]
 
 // ---- C07: concurrency slots -----------------------------------------------------------------------------
 // tok: number of concurrency slots held by the current goroutine (thread-local ghost, 0 or 1).
@@ -160,17 +170,18 @@ package task
 //@   site (*Executor).runCommand#1 requires
 //@        forall k {promptOK(call, k)} :: 0 <= k && k < len(t.Prompt) ==> t.Prompt[k] == "" || e.Dry || promptOK(call, k) [C13]
 //@   site (*Executor).runCommand#1 requires forall j {cmdSettled(t, j)} :: 0 <= j && j < $i && !t.Cmds[j].Defer ==>
-//@        cmdSettled(t, j) && (cmdOK(t, j) || (t.IgnoreError && cmdExitFail(t, j)))                   [C02,C03]
+//@        cmdSettled(t, j) && (cmdOK(t, j) || (t.IgnoreError && cmdExitFail(t, j)))                   [C02,C03,C13]
 //@   site (*Executor).runCommand#1 ghost set cmdSettled(t, $i)
 //@   site (*Executor).runCommand#1 ghost set cmdOK(t, $i) if result == nil
 //@   site IsExitStatus#1 ghost set cmdExitFail(t, $i) if result.1
 //@   site (*Executor).runDeferred#1 ghost set deferRegistered(t, $i)
 //@   loop 2 invariant forall j {cmdSettled(t, j)} :: 0 <= j && j < $i && !t.Cmds[j].Defer ==>
-//@        cmdSettled(t, j) && (cmdOK(t, j) || (t.IgnoreError && cmdExitFail(t, j)))                   [C02,C03]
+//@        cmdSettled(t, j) && (cmdOK(t, j) || (t.IgnoreError && cmdExitFail(t, j)))                   [C02,C03,C13]
 //@   loop 2 invariant forall j {deferRegistered(t, j)} :: 0 <= j && j < $i && t.Cmds[j].Defer ==> deferRegistered(t, j)     [C14]
 //@   deferrule deferRegistered => deferRan
 //@   requires forall j {deferRegistered(t, j)} :: !deferRegistered(t, j)
 //@   ensures forall j {deferRan(t, j)} :: deferRegistered(t, j) ==> deferRan(t, j)                   [C14]
+//@   ensures result == nil ==> e.ForceAll || (!call.Indirect && e.Force) || precondsOK(call)          [C13]
 
 //@ func (*Executor).runCommand
 //@   modifies heap, fs_exists, fs_ver
@@ -241,6 +252,7 @@ package task
 //@   site recv#1 requires semLimited() ==> tok == 0                                                    [C07]
 //@   site recv#1 requires notAncestor(h)                                                               [C07]
 //@   ensures result == nil && h != "" ==> execOK(h)                                                   [C01,C06]
+//@   nosite delete                     -- an execution key, once registered, is never unregistered     [C06]
 
 // Callees of runCommand whose bodies are outside this proof (trusted frames).
 //@ func (*Compiler).FastGetVariables
